@@ -26,9 +26,13 @@ def c01():
     j.append(K("c01_window::c01_from_vec", "From<Vec>/From<Box<[T]>>, length symbolic 1..=32", encodes=WIN_FNS, cost=7))
     j.append(K("c01_window::c01_from_parts_bad_index_panics", "from_parts with index >= len (len 0..=8) never returns",
                allow=[r"Index is out of slice's range"], encodes=WIN_FNS, cost=2))
+    for n in (2, 3, 5):
+        j.append(K("c01_window::c01_tiny_ring%d" % n, "capacity %d (concrete), phase and contents symbolic: from_parts represents buf[(idx+j) %% n]; one push" % n, encodes=WIN_FNS, cost=5))
     j.append(K("c01_window::c01_small_ring_sequence", "capacity symbolic 1..=8, phase and contents symbolic: the whole sequence through Index and iter_rev after from_parts, and after one push", encodes=WIN_FNS, cost=20))
     j.append(K("c01_window::c01_iter_split32", "capacity symbolic 1..=32, iter() split after symbolic j <= N items: next/size_hint/len/count/last of the rest, fused", encodes=WIN_FNS, cost=60, timeout=900))
     j.append(K("c01_window::c01_iter_rev_split32", "capacity symbolic 1..=32, iter_rev() split after symbolic j <= N items", encodes=WIN_FNS, cost=50, timeout=900))
+    import c01_extra
+    j += c01_extra.jobs()
     j.append(K("c01_window::c01_iter_split128", "capacity symbolic 1..=128, iter() split after symbolic j <= N items (deepening)", encodes=WIN_FNS, cost=1500, timeout=7200, tier="t", core=False, mem_gb=24))
     j.append(K("c01_window::c01_iter_rev_split128", "capacity symbolic 1..=128, iter_rev() split after symbolic j <= N items (deepening)", encodes=WIN_FNS, cost=1500, timeout=7200, tier="t", core=False, mem_gb=24))
     return j
